@@ -103,7 +103,7 @@ def decide_events(g1, g2, n, rng, full):
         for via, mk in inputs:
             try:
                 s1, s2 = mk()
-                ok, gl = lc_check(s1, s2, validate=False)
+                ok, gl = lc_check(s1, s2, validate=rng.random() < 0.5)
                 if not ok:
                     evs.append({"fn": "lc_decide", "via": via, "g2": e2, "dim": dim, "out": {"err": "", "yes": False}})
                 else:
@@ -161,7 +161,7 @@ def lc_state_events(g1, g2, n, rng, k):
              "st1": obs[0], "st2": obs[1]}
         e["ga"], e["dim"] = [], 0
         try:
-            ok, gl = lc_check(states[0].copy(), states[1].copy(), validate=False)
+            ok, gl = lc_check(states[0].copy(), states[1].copy(), validate=rng.random() < 0.5)
             e["out"] = {"err": "", "yes": bool(ok), "gates": sg.gate_list_obs(gl) if ok else []}
             if not ok:
                 # for the cause of a (possibly wrong) 'no': the graphs the decision procedure was run on
